@@ -475,7 +475,7 @@ pub fn run_c05() {
         rep.violation(p);
     }
     if st.accepted == 0 || st.rejected_by_rule.len() < 8 {
-        mc::machinery("C05 vacuous: too few outcome classes reached");
+        rep.vacuous("C05 vacuous: too few outcome classes reached");
     }
     rep.finish();
 }
@@ -914,7 +914,7 @@ pub fn run_c06() {
         rep.violation(p);
     }
     if st.accepted < 100 || st.rejected < 1000 {
-        mc::machinery("C06 vacuous");
+        rep.vacuous("C06 vacuous");
     }
     rep.finish();
 }
